@@ -330,6 +330,8 @@ type FactOpts struct {
 	// current facts are pruned as infeasible, so a rule can be decided "on the
 	// paths where X holds".
 	Assume []*Term
+	// Entry: facts that hold at function entry (derived from the call sites); unlike Assume they prune nothing.
+	Entry []*Term
 	// KeepAcross: if it returns true for a node, the node kills nothing (used by
 	// rules whose property is "tested once per critical section").
 	KeepAcross func(n ast.Node) bool
@@ -824,6 +826,9 @@ func (p *Prog) Facts(fi *FuncInfo, opt FactOpts) *Facts {
 	entryFacts := func() *FactSet {
 		fs := newFactSet()
 		for _, a := range opt.Assume {
+			fs.add(a)
+		}
+		for _, a := range opt.Entry {
 			fs.add(a)
 		}
 		return fs
